@@ -81,6 +81,9 @@ Section Oracle.
             | Err e => Err e
             | Ok (_, v1, _, used1) =>
               if negb (v1 =? 1) then Err EOther
+              (* repaired (library commit 5fab8e5): the end-of-payload test comes before the first section
+                 is read too, so a payload without sections is not read past its end into what follows *)
+              else if negb (h_dsize h =? 0) && (h_dsize h <=? used1) then Ok []
               else li_scan (S (S (length src))) o base src (h_doff h) (h_dsize h)
                            (h_doff h + used1) []
             end
